@@ -36,6 +36,7 @@ VARIABLES p,         \* Layer-P monitor (ConnP)
           inC, inS,  \* sc.inflow.n, st.inflow.n
           buf,       \* body pipe content: sequence of runs [t, n]
           bst,       \* body pipe: none|open|eof|err
+          bclosed,   \* the handler called Request.Body.Close
           clM, bodyM,\* declared content-length, body octets seen
           outC, outS,\* sc.flow.n, st.flow.n
           iwsM, mfsM,\* sc.initialWindowSize, writeSched.maxFrameSize
@@ -48,7 +49,7 @@ VARIABLES p,         \* Layer-P monitor (ConnP)
           holdM,     \* HEADERS without END_HEADERS waiting for its CONTINUATION
           want       \* generator only: the kind of stimulus to issue next ("" = any)
 
-mvars == <<st, maxId, inC, inS, buf, bst, clM, bodyM, outC, outS, iwsM, mfsM, ctl, sq, needAck,
+mvars == <<st, maxId, inC, inS, buf, bst, bclosed, clM, bodyM, outC, outS, iwsM, mfsM, ctl, sq, needAck,
            ga, needGA, conn, hs, hk, hprog, hsent, hret, sent, mineM, tag, turn, nstep, ndata, nhdrs,
            last, holdM, want>>
 vars == <<p, mvars>>
@@ -73,7 +74,7 @@ Init ==
   /\ p = PInit(K0)
   /\ st = [s \in Sid |-> "idle"] /\ maxId = 0
   /\ inC = K0.cw0 /\ inS = [s \in Sid |-> 0]
-  /\ buf = [s \in Sid |-> <<>>] /\ bst = [s \in Sid |-> "none"]
+  /\ buf = [s \in Sid |-> <<>>] /\ bst = [s \in Sid |-> "none"] /\ bclosed = [s \in Sid |-> FALSE]
   /\ clM = [s \in Sid |-> -1] /\ bodyM = [s \in Sid |-> 0]
   /\ outC = K0.ocw0 /\ outS = [s \in Sid |-> 0] /\ iwsM = K0.osw0 /\ mfsM = K0.mfs0
   /\ ctl = <<>> /\ sq = [s \in Sid |-> <<>>]
@@ -143,32 +144,34 @@ ReqLevel == {"nomethod", "nopath", "emptypath", "noscheme"}   \* newWriterAndReq
 HeadersEffect(s, r, es, cl) ==
   /\ IF r \in FramerLevel THEN
        /\ Apply(StreamErr(Cur, s, PROTOCOL))
-       /\ UNCHANGED <<maxId, inS, clM, bodyM, outC, outS, iwsM, mfsM, needAck, hk, hsent, hret,
+       /\ UNCHANGED <<maxId, inS, clM, bodyM, bclosed, outC, outS, iwsM, mfsM, needAck, hk, hsent, hret,
                       sent, mineM, tag, ndata>>
      ELSE IF s % 2 = 0 THEN
        /\ Apply(ConnErr(Cur, PROTOCOL))
-       /\ UNCHANGED <<maxId, inS, clM, bodyM, outC, outS, iwsM, mfsM, needAck, hk, hsent, hret,
+       /\ UNCHANGED <<maxId, inS, clM, bodyM, bclosed, outC, outS, iwsM, mfsM, needAck, hk, hsent, hret,
                       sent, mineM, tag, ndata>>
      ELSE IF InMap(s) THEN
-       /\ UNCHANGED <<maxId, inS, clM, bodyM, outC, outS, iwsM, mfsM, needAck, hk, hsent, hret,
+       /\ UNCHANGED <<maxId, inS, clM, bodyM, bclosed, outC, outS, iwsM, mfsM, needAck, hk, hsent, hret,
                       sent, mineM, tag, ndata>>
        /\ IF st[s] = "hcr" THEN Apply(StreamErr(Cur, s, STREAMCLOSED))     \* fix: (C35)
           ELSE IF ~es \/ r \notin TrailerOK THEN Apply(StreamErr(Cur, s, PROTOCOL))
           ELSE Apply([Cur EXCEPT !.st[s] = "hcr", !.bst[s] = "eof"])        \* endStream
      ELSE IF s <= maxId THEN
        /\ Apply(ConnErr(Cur, PROTOCOL))
-       /\ UNCHANGED <<maxId, inS, clM, bodyM, outC, outS, iwsM, mfsM, needAck, hk, hsent, hret,
+       /\ UNCHANGED <<maxId, inS, clM, bodyM, bclosed, outC, outS, iwsM, mfsM, needAck, hk, hsent, hret,
                       sent, mineM, tag, ndata>>
      ELSE \* a new stream
        /\ maxId' = s
-       /\ UNCHANGED <<outC, iwsM, mfsM, needAck, hk, hsent, hret, sent, tag, ndata, bodyM>>
+       /\ UNCHANGED <<outC, iwsM, mfsM, needAck, hk, hsent, sent, tag, ndata, bodyM, bclosed>>
        /\ IF NOpen + 1 > K0.maxs THEN        \* maxStreamsError: serve() returns
-            /\ Apply(ConnClosed(Cur)) /\ UNCHANGED <<inS, clM, outS, mineM>>
+            /\ Apply(ConnClosed(Cur)) /\ UNCHANGED <<inS, clM, outS, mineM, hret>>
           ELSE IF r \in ReqLevel \/ r \notin (ValidReq \cup ConnSpecific) THEN
             \* stream created, then newWriterAndRequest fails: resetStream + closeStream
             /\ Apply(StreamErr([Cur EXCEPT !.st[s] = IF es THEN "hcr" ELSE "open"], s, PROTOCOL))
-            /\ UNCHANGED <<inS, clM, outS, mineM>>
+            /\ UNCHANGED <<inS, clM, outS, mineM, hret>>
           ELSE
+            \* connection-specific fields: the server's own 400 handler answers and returns
+            /\ hret' = [hret EXCEPT ![s] = r \notin ValidReq]
             /\ inS' = [inS EXCEPT ![s] = K0.sw0] /\ outS' = [outS EXCEPT ![s] = iwsM]
             /\ clM' = [clM EXCEPT ![s] = IF es THEN -1 ELSE cl]
             /\ mineM' = [mineM EXCEPT ![s] = r \in ValidReq]
@@ -192,7 +195,7 @@ ClientHeadersNEH(s, r, es) ==
   /\ Stimulus /\ Want("NEH") /\ "NEH" \in CKinds /\ nhdrs < MaxHdrs
   /\ p' = PClient(p, e) /\ After(e) /\ nhdrs' = nhdrs + 1 /\ holdM' = e
   /\ Apply(Cur)
-  /\ UNCHANGED <<maxId, inS, clM, bodyM, outC, outS, iwsM, mfsM, needAck, hk, hsent, hret, sent,
+  /\ UNCHANGED <<maxId, inS, clM, bodyM, bclosed, outC, outS, iwsM, mfsM, needAck, hk, hsent, hret, sent,
                  mineM, tag, ndata>>
 
 \* the CONTINUATION completes the block
@@ -208,7 +211,7 @@ ClientBreak(k) ==
   /\ StimAny /\ Want("BREAK") /\ holdM.k # ""
   /\ p' = PClient(p, e) /\ After(e) /\ holdM' = E0
   /\ Apply(ConnErr(Cur, PROTOCOL))
-  /\ UNCHANGED <<maxId, inS, clM, bodyM, outC, outS, iwsM, mfsM, needAck, hk, hsent, hret, sent,
+  /\ UNCHANGED <<maxId, inS, clM, bodyM, bclosed, outC, outS, iwsM, mfsM, needAck, hk, hsent, hret, sent,
                  mineM, tag, ndata, nhdrs>>
 
 ClientData(s, L, pad, es) ==
@@ -218,7 +221,7 @@ ClientData(s, L, pad, es) ==
   /\ Stimulus /\ Want("DATA") /\ "DATA" \in CKinds /\ ndata < MaxData /\ pad <= L
   /\ p' = PClient(p, e)
   /\ After(e) /\ tag' = tag + 1 /\ ndata' = ndata + 1 /\ UNCHANGED holdM
-  /\ UNCHANGED <<maxId, clM, outC, outS, iwsM, mfsM, needAck, hk, hsent, hret, sent, mineM, nhdrs>>
+  /\ UNCHANGED <<maxId, clM, bclosed, outC, outS, iwsM, mfsM, needAck, hk, hsent, hret, sent, mineM, nhdrs>>
   /\ IF st[s] # "open" THEN
        /\ UNCHANGED <<inS, bodyM>>
        /\ IF st[s] = "idle" /\ s > maxId THEN Apply(ConnErr(Cur, PROTOCOL))   \* fix: (C35)
@@ -234,6 +237,10 @@ ClientData(s, L, pad, es) ==
                Apply([d1 EXCEPT !.ctl = IF L > 0 THEN Append(@, [Fr("WU", 0) EXCEPT !.inc = L]) ELSE @])
      ELSE IF L > 0 /\ Min(inS[s], inC) < L THEN
        /\ UNCHANGED <<inS, bodyM>> /\ Apply(StreamErr(Cur, s, FLOW))
+     ELSE IF d > 0 /\ bclosed[s] THEN
+       \* st.body.Write fails.  fix: (C33) the frame's connection-level credit is returned
+       /\ UNCHANGED <<inS, bodyM>>
+       /\ Apply(StreamErr([Cur EXCEPT !.ctl = Append(@, [Fr("WU", 0) EXCEPT !.inc = L])], s, STREAMCLOSED))
      ELSE
        /\ inS' = [inS EXCEPT ![s] = @ - L + pad]
        /\ bodyM' = [bodyM EXCEPT ![s] = @ + d]
@@ -248,7 +255,7 @@ ClientRst(s, c) ==
   LET e == [E0 EXCEPT !.ev = "c", !.k = "RST", !.s = s, !.code = c] IN
   /\ Stimulus /\ Want("RST") /\ "RST" \in CKinds
   /\ p' = PClient(p, e) /\ After(e) /\ UNCHANGED holdM
-  /\ UNCHANGED <<maxId, inS, clM, bodyM, outC, outS, iwsM, mfsM, needAck, hk, hsent, hret, sent,
+  /\ UNCHANGED <<maxId, inS, clM, bodyM, bclosed, outC, outS, iwsM, mfsM, needAck, hk, hsent, hret, sent,
                  mineM, tag, ndata, nhdrs>>
   /\ IF st[s] = "idle" /\ s > maxId THEN Apply(ConnErr(Cur, PROTOCOL))
      ELSE IF InMap(s) THEN Apply(CloseStream(Cur, s))
@@ -258,7 +265,7 @@ ClientWu(s, inc) ==
   LET e == [E0 EXCEPT !.ev = "c", !.k = "WU", !.s = s, !.inc = inc] IN
   /\ Stimulus /\ Want("WU") /\ "WU" \in CKinds
   /\ p' = PClient(p, e) /\ After(e) /\ UNCHANGED holdM
-  /\ UNCHANGED <<maxId, inS, clM, bodyM, iwsM, mfsM, needAck, hk, hsent, hret, sent, mineM, tag,
+  /\ UNCHANGED <<maxId, inS, clM, bodyM, bclosed, iwsM, mfsM, needAck, hk, hsent, hret, sent, mineM, tag,
                  ndata, nhdrs>>
   /\ IF inc = 0 THEN                           \* parseWindowUpdateFrame
        /\ UNCHANGED <<outC, outS>>
@@ -277,7 +284,7 @@ ClientSettings(iws, mfs) ==
       niws == IF iws >= 0 THEN iws ELSE iwsM IN
   /\ Stimulus /\ Want("SETTINGS") /\ "SETTINGS" \in CKinds
   /\ p' = PClient(p, e) /\ After(e) /\ UNCHANGED holdM
-  /\ UNCHANGED <<maxId, inS, clM, bodyM, outC, hk, hsent, hret, sent, mineM, tag, ndata, nhdrs>>
+  /\ UNCHANGED <<maxId, inS, clM, bodyM, bclosed, outC, hk, hsent, hret, sent, mineM, tag, ndata, nhdrs>>
   /\ IF iws = -2 THEN UNCHANGED <<outS, iwsM, mfsM, needAck>> /\ Apply(ConnErr(Cur, FLOW))
      ELSE IF \E s \in Sid : InMap(s) /\ Over(outS[s], niws - iwsM) THEN
        \* the code has already moved sc.initialWindowSize and some streams; it ends the connection
@@ -293,7 +300,7 @@ ClientPing ==
   LET e == [E0 EXCEPT !.ev = "c", !.k = "PING", !.inc = nstep + 1] IN
   /\ Stimulus /\ Want("PING") /\ "PING" \in CKinds
   /\ p' = PClient(p, e) /\ After(e) /\ UNCHANGED holdM
-  /\ UNCHANGED <<maxId, inS, clM, bodyM, outC, outS, iwsM, mfsM, needAck, hk, hsent, hret, sent,
+  /\ UNCHANGED <<maxId, inS, clM, bodyM, bclosed, outC, outS, iwsM, mfsM, needAck, hk, hsent, hret, sent,
                  mineM, tag, ndata, nhdrs>>
   /\ Apply([Cur EXCEPT !.ctl = Append(@, [Fr("PINGACK", 0) EXCEPT !.inc = nstep + 1])])
 
@@ -302,7 +309,7 @@ ClientNoEffect(k, s) ==
   LET e == [E0 EXCEPT !.ev = "c", !.k = k, !.s = s] IN
   /\ Stimulus /\ Want("NOEFF") /\ k \in CKinds
   /\ p' = PClient(p, e) /\ After(e) /\ UNCHANGED holdM
-  /\ UNCHANGED <<maxId, inS, clM, bodyM, outC, outS, iwsM, mfsM, needAck, hk, hsent, hret, sent,
+  /\ UNCHANGED <<maxId, inS, clM, bodyM, bclosed, outC, outS, iwsM, mfsM, needAck, hk, hsent, hret, sent,
                  mineM, tag, ndata, nhdrs>>
   /\ Apply(Cur)
 
@@ -311,7 +318,7 @@ ClientConnErr(k, s) ==
   LET e == [E0 EXCEPT !.ev = "c", !.k = k, !.s = s] IN
   /\ Stimulus /\ Want("CONNERR") /\ k \in CKinds
   /\ p' = PClient(p, e) /\ After(e) /\ UNCHANGED holdM
-  /\ UNCHANGED <<maxId, inS, clM, bodyM, outC, outS, iwsM, mfsM, needAck, hk, hsent, hret, sent,
+  /\ UNCHANGED <<maxId, inS, clM, bodyM, bclosed, outC, outS, iwsM, mfsM, needAck, hk, hsent, hret, sent,
                  mineM, tag, ndata, nhdrs>>
   /\ Apply(ConnErr(Cur, PROTOCOL))
 
@@ -324,8 +331,13 @@ HCmd(s, op, n) ==
   /\ p' = PHcmd(p, e) /\ After(e) /\ UNCHANGED holdM
   /\ UNCHANGED <<st, maxId, inC, inS, buf, bst, clM, bodyM, outC, outS, iwsM, mfsM, ctl, sq, needAck,
                  ga, needGA, conn, sent, mineM, tag, ndata, nhdrs>>
-  /\ CASE op = "read" -> /\ hs' = [hs EXCEPT ![s] = "rd"] /\ hk' = [hk EXCEPT ![s] = n]
+  /\ bclosed' = IF op = "closebody" THEN [bclosed EXCEPT ![s] = TRUE] ELSE bclosed
+  /\ CASE op = "read" -> /\ ~bclosed[s]
+                         /\ hs' = [hs EXCEPT ![s] = "rd"] /\ hk' = [hk EXCEPT ![s] = n]
                          /\ UNCHANGED <<hprog, hsent, hret>>
+       \* RequestBody.Close: pipe.CloseWithError(errClosedBody); later DATA cannot be written
+       [] op = "closebody" -> /\ bst[s] = "open" /\ ~bclosed[s] /\ InMap(s)
+                              /\ UNCHANGED <<hs, hk, hprog, hsent, hret>>
        [] op = "write" -> /\ InMap(s)        \* no new response writes on a closed stream
                           /\ hs' = [hs EXCEPT ![s] = "push"]
                           /\ hprog' = [hprog EXCEPT ![s] =
@@ -349,7 +361,7 @@ HStart(s) ==
   /\ Running /\ hs[s] = "new"
   /\ hs' = [hs EXCEPT ![s] = "idle"]
   /\ p' = PHandler(p, [E0 EXCEPT !.ev = "h", !.s = s, !.op = "start"])
-  /\ UNCHANGED <<st, maxId, inC, inS, buf, bst, clM, bodyM, outC, outS, iwsM, mfsM, ctl, sq, needAck,
+  /\ UNCHANGED <<st, maxId, inC, inS, buf, bst, clM, bodyM, bclosed, outC, outS, iwsM, mfsM, ctl, sq, needAck,
                  ga, needGA, conn, hk, hprog, hsent, hret, sent, mineM, tag, turn, nstep, ndata, nhdrs, last, holdM, want>>
 
 \* writeFrameFromHandler: the message reaches serve() and is queued (or, on a closed stream,
@@ -362,7 +374,7 @@ HPush(s) ==
             /\ hprog' = [hprog EXCEPT ![s] = Tail(@)]
        ELSE /\ sq' = sq /\ hprog' = [hprog EXCEPT ![s] = <<>>]
             /\ hs' = [hs EXCEPT ![s] = IF hret[s] THEN "gone" ELSE "idle"]
-  /\ UNCHANGED <<p, st, maxId, inC, inS, buf, bst, clM, bodyM, outC, outS, iwsM, mfsM, ctl, needAck,
+  /\ UNCHANGED <<p, st, maxId, inC, inS, buf, bst, clM, bodyM, bclosed, outC, outS, iwsM, mfsM, ctl, needAck,
                  ga, needGA, conn, hk, hsent, hret, sent, mineM, tag, turn, nstep, ndata, nhdrs, last, holdM, want>>
 
 \* RequestBody.Read returns; noteBodyRead on the serve loop
@@ -380,7 +392,7 @@ HReadDone(s) ==
           THEN /\ inS' = [inS EXCEPT ![s] = @ + n]
                /\ sq' = [sq EXCEPT ![s] = Append(@, Q([Fr("WU", s) EXCEPT !.inc = n], FALSE))]
           ELSE UNCHANGED <<inS, sq>>
-  /\ UNCHANGED <<st, maxId, bst, clM, bodyM, outC, outS, iwsM, mfsM, needAck, ga, needGA, conn, hk,
+  /\ UNCHANGED <<st, maxId, bst, clM, bodyM, bclosed, outC, outS, iwsM, mfsM, needAck, ga, needGA, conn, hk,
                  hprog, hsent, hret, sent, mineM, tag, turn, nstep, ndata, nhdrs, last, holdM, want>>
 
 (***************************************************************************)
@@ -446,7 +458,7 @@ WriteData(s) ==
 WriteFrame ==
   /\ Running
   /\ WriteGoAway \/ WriteAck \/ WriteCtl \/ (\E s \in Sid : WriteNoCost(s)) \/ (\E s \in Sid : WriteData(s))
-  /\ UNCHANGED <<maxId, clM, bodyM, iwsM, mfsM, hk, hsent, hret, mineM, tag, turn, nstep, ndata, nhdrs,
+  /\ UNCHANGED <<maxId, clM, bodyM, bclosed, iwsM, mfsM, hk, hsent, hret, mineM, tag, turn, nstep, ndata, nhdrs,
                  last, holdM, want>>
 
 CanWrite == needGA \/ needAck \/ ((ga = -1 \/ ga = NOERR) /\ (ctl # <<>> \/ \E s \in Sid : NoCost(s) \/ CanData(s)))
@@ -457,7 +469,7 @@ Quiesce ==
   /\ turn = "run" /\ ~Busy
   /\ p' = PQuiesce(p, [E0 EXCEPT !.ev = "q", !.closed = conn = "closed"])
   /\ turn' = "stim" /\ last' = E0
-  /\ UNCHANGED <<st, maxId, inC, inS, buf, bst, clM, bodyM, outC, outS, iwsM, mfsM, ctl, sq, needAck,
+  /\ UNCHANGED <<st, maxId, inC, inS, buf, bst, clM, bodyM, bclosed, outC, outS, iwsM, mfsM, ctl, sq, needAck,
                  ga, needGA, conn, hs, hk, hprog, hsent, hret, sent, mineM, tag, nstep, ndata, nhdrs,
                  holdM, want>>
 
@@ -478,7 +490,7 @@ StimNext ==
   \/ ClientConnErr("CONT", CHOOSE s \in SidsUsed : TRUE) \/ ClientConnErr("PUSH", CHOOSE s \in SidsUsed : TRUE)
   \/ \E s \in SidsUsed : \/ \E n \in ReadLens : HCmd(s, "read", n)
                          \/ \E n \in WriteLens : HCmd(s, "write", n)
-                         \/ HCmd(s, "hdr", 0) \/ HCmd(s, "ret", 0)
+                         \/ HCmd(s, "hdr", 0) \/ HCmd(s, "ret", 0) \/ HCmd(s, "closebody", 0)
 
 Next == StimNext \/ (\E s \in Sid : HStart(s) \/ HPush(s) \/ HReadDone(s)) \/ WriteFrame \/ Quiesce
 
